@@ -124,7 +124,11 @@ func (c *core) execFunc() (*Response, error) {
 		}
 		return resp, nil
 	case <-c.ctx.Done():
-		atomic.SwapInt32(&done, 1)
+		if !atomic.CompareAndSwapInt32(&done, 0, 1) {
+			// The request already completed and its goroutine owns resp and errCh
+			// until it has sent the result: wait for it before releasing them.
+			<-errCh
+		}
 		ReleaseResponse(resp)
 		return nil, ErrTimeoutOrCancel
 	}
